@@ -57,7 +57,23 @@ define bot say count
   "count is {{ n }}"
 """
 
-CONFIGS = {"general": "", "flows": FLOWS}
+CONFIGS = {"general": "", "flows": FLOWS, "flows_cached": FLOWS}
+
+# the `flows` configuration with the embedding cache and request batching switched on: texts of DIFFERENT concurrent conversations
+# then share one embedding call (partial cache hits included)
+YAML_CACHED = YAML + """
+core:
+  embedding_search_provider:
+    name: default
+    parameters:
+      use_batching: true
+      max_batch_size: 10
+      max_batch_hold: 0.01
+    cache:
+      enabled: true
+      key_generator: md5
+      store: in_memory
+"""
 
 _ENV = {}
 
@@ -152,7 +168,7 @@ def _env():
         temperature: float = 0.5
 
     def make(config):
-        cfg = RailsConfig.from_content(colang_content=CONFIGS[config], yaml_content=YAML)
+        cfg = RailsConfig.from_content(colang_content=CONFIGS[config], yaml_content=YAML_CACHED if config == "flows_cached" else YAML)
         llm = RecLLM(responses=[], calls=[], log=[], model_kwargs={})
         rails = LLMRails(cfg, llm=llm)
         return rails, llm
@@ -980,7 +996,7 @@ def native_checks(rng, tier):
         recs.append(_check_keys(E, rng, tier))
         recs.append(_check_options_sequential(E, rng, tier, kwargs_route=False))
         recs.append(_check_options_sequential(E, rng, tier, kwargs_route=True))
-        for config in ("general", "flows"):
+        for config in ("general", "flows", "flows_cached"):
             recs.append(_check_concurrent(E, rng, tier, False, config))
         for config in ("general", "flows"):
             recs.append(_check_concurrent(E, rng, tier, True, config))
